@@ -30,6 +30,24 @@ POSITIONS = {
     "not-operand": lambda imp, name: "let %s_b = not ((%s).val == 0 - 1);\nlet %s = (%s).val;\n" % (name, imp, name, imp),
     "range-bound": lambda imp, name: "let %s_r = 0:((%s).val);\nlet %s = (%s).val;\n" % (name, imp, name, imp),
     "cast-operand": lambda imp, name: "let %s = int((%s).val);\n" % (name, imp),
+    # every remaining child slot of every expression and statement kind
+    "reduce-accumulator": lambda imp, name: "let %s = reduce(func (acc, x) => acc, (%s).val, [1]);\n" % (name, imp),
+    "reduce-target": lambda imp, name: "let %s = reduce(func (acc, x) => acc + x, 0, [(%s).val]);\n" % (name, imp),
+    "map-target": lambda imp, name: "let %s = map(func (x) => x, [(%s).val]).0;\n" % (name, imp),
+    "filter-target": lambda imp, name: "let %s = filter(func (x) => true, [(%s).val]).0;\n" % (name, imp),
+    "select-value": lambda imp, name: "let %s_k = select ((%s).msg, 0) => {nomatch = 1};\nlet %s = (%s).val + %s_k;\n" % (name, imp, name, imp, name),
+    "range-start": lambda imp, name: "let %s_r = ((%s).val):1000000;\nlet %s = %s_r.0;\n" % (name, imp, name, name),
+    "range-step": lambda imp, name: "let %s_r = 0:((%s).val):0;\nlet %s = (%s).val + %s_r.0;\n" % (name, imp, name, imp, name),
+    "in-left": lambda imp, name: "let %s_b = (%s).val in [1];\nlet %s = (%s).val;\n" % (name, imp, name, imp),
+    "in-right": lambda imp, name: "let %s_b = val in (%s);\nlet %s = (%s).val;\n" % (name, imp, name, imp),
+    "is-left": lambda imp, name: "let %s_b = (%s).val is \"int\";\nlet %s = (%s).val;\n" % (name, imp, name, imp),
+    "format-single-argument": lambda imp, name: "let %s = int(\"@{item.val}\" %% %s);\n" % (name, imp),
+    "let-constraint": lambda imp, name: "let %s :: ((%s).val) = (%s).val;\n" % (name, imp, imp),
+    "function-parameter-constraint": lambda imp, name: "let %s_f = func (x :: ((%s).val)) => x;\nlet %s = %s_f((%s).val);\n" % (name, imp, name, name, imp),
+    "tuple-field-constraint": lambda imp, name: "let %s = {v :: ((%s).val) = (%s).val}.v;\n" % (name, imp, imp),
+    "expression-statement": lambda imp, name: "(%s).val;\nlet %s = (%s).val;\n" % (imp, name, imp),
+    "assert-statement": lambda imp, name: "assert {ok = (%s).val > 0, desc = \"d\"};\nlet %s = (%s).val;\n" % (imp, name, imp),
+    "module-out-constraint": lambda imp, name: "let %s_mod = module {} => (r :: ((%s).val)) { let r = (%s).val; };\nlet %s = %s_mod{};\n" % (name, imp, imp, name, name),
     "format-template-expression": lambda imp, name: "let %s = int(\"@{(%s).val + item.x}\" %% {x = 0});\n" % (name, imp.replace('"', '\\"')),
     "trace-operand": lambda imp, name: "let %s = (%s).val + 0;\n" % (name, imp),
 }
